@@ -223,6 +223,26 @@ func (x *Exec) callSSA(caller *frame, pos token.Pos, fn *ssa.Function, args []Va
 		x.lenientSkips[fn.String()]++
 		return x.zero(fn.Signature.Results())
 	}
+	if x.cm != nil && len(x.cm.overrides) > 0 {
+		if ov, ok := x.cm.overrides[funcKey(fn)]; ok && !x.cm.inOverride {
+			x.cm.inOverride = true
+			defer func() { x.cm.inOverride = false }()
+			n := 0
+			if c, isC := ov.(*Closure); isC {
+				n = len(c.Fn.Params)
+			} else if f, isF := ov.(*ssa.Function); isF {
+				n = len(f.Params)
+			}
+			if n > len(args) {
+				n = len(args)
+			}
+			r := x.call(caller, pos, ov, args[:n])
+			if r == nil {
+				return x.zero(fn.Signature.Results())
+			}
+			return r
+		}
+	}
 	if fn.Parent() == nil {
 		key := funcKey(fn)
 		if ext := intrinsics[key]; ext != nil {
@@ -445,6 +465,10 @@ func (fr *frame) visit(instr ssa.Instruction) continuation {
 		fr.defers = &deferred{fn: fn, args: args, instr: instr, tail: fr.defers}
 	case *ssa.Go:
 		fn, args := fr.prepareCall(&instr.Call)
+		if x.cm != nil {
+			x.cm.goStmt(fn, args, x.prog.Fset.Position(instr.Pos()).String())
+			break
+		}
 		x.spawn(fn, args, x.prog.Fset.Position(instr.Pos()).String())
 	case *ssa.MakeChan:
 		n := x.concreteInt(fr.get(instr.Size).(*Term), "chan size")
@@ -459,6 +483,9 @@ func (fr *frame) visit(instr ssa.Instruction) continuation {
 			addr = fr.env[instr].(Ptr)
 		}
 		*addr = x.zero(mustDeref(instr.Type()))
+		if x.cm != nil && instr.Heap {
+			x.cm.noteAllocObj(addr)
+		}
 	case *ssa.MakeSlice:
 		ln := x.concreteInt(x.idx64(fr.get(instr.Len), instr.Len.Type()), "make len")
 		cp := x.concreteInt(x.idx64(fr.get(instr.Cap), instr.Cap.Type()), "make cap")
@@ -484,7 +511,11 @@ func (fr *frame) visit(instr ssa.Instruction) continuation {
 		if p == nil {
 			x.targetPanicStr("runtime error: invalid memory address or nil pointer dereference")
 		}
-		fr.env[instr] = &(*p).(Struct)[instr.Field]
+		fp := &(*p).(Struct)[instr.Field]
+		if x.cm != nil {
+			x.cm.noteField(p, fp, instr.Field)
+		}
+		fr.env[instr] = fp
 	case *ssa.Field:
 		fr.env[instr] = fr.get(instr.X).(Struct)[instr.Field]
 	case *ssa.IndexAddr:
@@ -680,7 +711,9 @@ func (x *Exec) loadFrom(addr Value) Value {
 		if p == nil {
 			x.targetPanicStr("runtime error: invalid memory address or nil pointer dereference")
 		}
-		x.noteRead(p)
+		if x.cm != nil && !x.cm.prelude && x.cm.isSharedCell(p) {
+			return x.cm.sharedRead(p, "load")
+		}
 		return copyVal(*p)
 	case SymPtr:
 		return x.symRead(p.S, p.Idx)
@@ -694,6 +727,10 @@ func (x *Exec) storeTo(addr Value, v Value) {
 	case Ptr:
 		if p == nil {
 			x.targetPanicStr("runtime error: invalid memory address or nil pointer dereference")
+		}
+		if x.cm != nil && !x.cm.prelude && x.cm.isSharedCell(p) {
+			x.cm.sharedWrite(p, copyVal(v), "store")
+			return
 		}
 		x.store(p, copyVal(v))
 		return
